@@ -655,7 +655,10 @@ def below_band_rule(ctx, repo):
             if isinstance(st, ast.Assign) and len(st.targets) == 1 and isinstance(st.targets[0], ast.Name) and isinstance(st.value, ast.Constant):
                 consts[st.targets[0].id] = st.value.value
     menv = dict(repo.folded(AGE)[0])
-    methods = {q.split('.')[-1]: _fold.FuncConst(f, menv) for q, f in agm.functions.items() if q.startswith('AgeGrader.') and q.split('.')[-1] in ('find_age',)}
+    methods = {q.split('.')[-1]: _fold.FuncConst(f, menv) for q, f in agm.functions.items() if q.startswith('AgeGrader.')}
+    for q, f in agm.functions.items():
+        if q.startswith('AthlonsAgeGrader.'):
+            methods[q.split('.')[-1]] = _fold.FuncConst(f, menv)
     data = repo.json('athlib/wma/wma-athlons-data.json')
     ages = data.get('ages')
     first_band = consts.get('min_age', 35)
@@ -663,13 +666,16 @@ def below_band_rule(ctx, repo):
     agep = pnames[2] if len(pnames) > 2 else 'age'
     # names the tail reads that the prelude defines: the table, the ages, the row index
     bad, n = None, 0
+    part1_ok = True
     for g in ('m', 'f'):
         table = data.get(g) or []
         for fx in range(len(table)):
+            if not part1_ok:
+                break
             for a in range(1, int(first_band)):
                 env = dict(menv)
-                env.update({pnames[0]: _fold.ObjConst(dict(consts), methods), agep: a, 'ages': ages, 'table': table, 'fx': fx,
-                            'data': data, 'gender': g})
+                env.update({pnames[0]: _fold.ObjConst(dict(consts, _data=data), methods), agep: a, 'ages': ages, 'table': table, 'fx': fx,
+                            'data': data, 'gender': g, (pnames[3] if len(pnames) > 3 else 'event'): table[fx][consts.get('event_column', 0)]})
                 try:
                     out = None
                     try:
@@ -680,8 +686,9 @@ def below_band_rule(ctx, repo):
                 except _fold._Raise as ex:
                     out = 'raises %s' % ex.name
                 except _fold.Unfoldable as e:
-                    ctx.info('R12: the age part of calculate_factor is not foldable (%s); below-band ages not decided' % e)
-                    return
+                    ctx.info('R12: the age part of calculate_factor alone is not foldable (%s); decided on the whole function below' % e)
+                    part1_ok = False
+                    break
                 except Exception as e:
                     out = 'raises %s' % type(e).__name__
                 n += 1
